@@ -62,13 +62,18 @@ CHECKS.update({
         engine='csim',
         technique='TLA+ spec Tendermint.tla under partial synchrony and weak fairness: TLC checks the temporal property '
                   'EventuallyDecide and deadlock-freedom; adversarial prefixes replayed on real nodes followed by a fair drain '
-                  'that must decide; executions of real goroutines (real receiveRoutine/ticker) validated against the spec by TLC',
+                  'that must decide; executions of real goroutines (real receiveRoutine/ticker; also the REAL reactor stack: '
+                  'ConsensusReactors on connected p2p switches, with a laggard, a silent validator and a restarted process) '
+                  'recorded through hooks and validated against the spec by TLC (Trace_Tendermint.tla); Ticker.tla replayed on the '
+                  'real timeoutTicker; PeerState.tla (the per-peer bookkeeping the gossip routines decide from) exhaustively '
+                  'checked and replayed on the real PeerState',
         level=('model_checking',
                'Bounded liveness: TLC liveness checking on the small configurations (also with a crash); every spec-level wedge '
                'is replayed and drained on real nodes before it counts; real-goroutine runs must reach the target height and '
                'their recorded traces must be behaviours of the spec.', 'DESIGN.md §4 C12, §9'),
-        note=TM_NOTE + ' Liveness is bounded (rounds/heights); wall-clock dependent failures of the real-goroutine runs are '
-                       'reported as inconclusive, never as violations.'),
+        note=TM_NOTE + ' Liveness is bounded (rounds/heights); wall-clock dependent failures of the relayed real-goroutine runs are '
+                       'reported as inconclusive; a fault-free run of the full reactor stack that does not reach its height is '
+                       'repeated twice with 2x and 4x the time and only three identical outcomes are a violation.'),
 })
 
 CHECKS.update({
@@ -114,7 +119,10 @@ CHECKS.update({
                   'recovery, recovery transcribed branch by branch) model-checked exhaustively with TLC; fault enumeration on a real '
                   'single-validator node subprocess: the process is killed immediately before each durable write of each block kind (and '
                   'again during recovery), restarted, and compared via RPC, offline database reads and a re-execution of the whole chain on '
-                  'a fresh node; the uncrashed durable-write log is validated against the spec with TLC (trace validation)',
+                  'a fresh node; the uncrashed durable-write log is validated against the spec with TLC (trace validation); raft '
+                  'consensus mode: RaftMode.tla (FSM.Apply split at its durable writes, crash/restart, snapshot/InstallSnapshot, '
+                  'leader loop) model-checked, edge-cover behaviours replayed on real raft-mode nodes with crashes parked at the '
+                  'durable-write failpoints, and a live 3-node hashicorp/raft cluster judged on its recorded Apply events',
         level=('fault_enumeration',
                'Every one of the 35-36 durable writes issued while a block of each kind (EVM create/transfer, contract call, kv, validator '
                'change, empty) is decided and committed is a crash point on the real node binary; each is also combined with a second crash '
@@ -123,7 +131,7 @@ CHECKS.update({
                'node must reproduce every AppHash/ReceiptsHash/validators hash. TLC proves the same properties plus progress on the model for '
                '<=3 heights x <=3 crashes.', 'DESIGN.md §4 C06'),
         note='Trusted: TLC, the durable-write hook placement (go-db, ethdb, autofile, WriteFileAtomic), crashdrv readers. Bounds: one validator, '
-             'pbft only (raft FSM.Apply not bound), process death only (no power loss), 5 block kinds, <=2 nested crashes; quick samples ~34 '
+             'pbft node enumeration plus the raft-mode slice (raft internals replaced by their contract to the FSM), process death only (no power loss), 5 block kinds, <=2 nested crashes; quick samples ~34 '
              'points, thorough runs all.'),
 })
 
